@@ -53,7 +53,7 @@ MUX = {
     ),
     "C07": dict(
         title="stream opening",
-        mc=dict(quick=["MC_Open_q"], thorough=["MC_Open"]),
+        mc=dict(quick=["MC_Open_q", "MC_Cancel_q"], thorough=["MC_Open", "MC_Cancel"]),
         needs=["AOpenStart", "AOpenPoll", "AAccept"],
         sims=dict(quick=[("open", 160, 90)], thorough=[("open", 3000, 140), ("all", 1000, 160)]),
         nontrivial=lambda r: r.get("ev") in ("open", "open_poll") and len(r.get("draws", [])) > 1,
@@ -93,7 +93,7 @@ MUX = {
     ),
     "C15": dict(
         title="bind requests",
-        mc=dict(quick=["MC_Bind_q"], thorough=["MC_Bind"]),
+        mc=dict(quick=["MC_Bind_q", "MC_Cancel_q"], thorough=["MC_Bind", "MC_Cancel"]),
         needs=["ABindStart", "ABindPoll", "ANextBind", "ABindReply"],
         sims=dict(quick=[("bind", 160, 90)], thorough=[("bind", 3000, 140), ("all", 1000, 160)]),
         nontrivial=lambda r: r.get("ev") in ("bind", "bind_poll") and r.get("res") in ("true", "false"),
@@ -105,6 +105,11 @@ INVARIANT_PROPERTY = {
     "AckSound": {"C03"}, "QueueBound": {"C03"}, "InitialCredit": {"C07", "C03"}, "DoneResolved": {"C08"},
     "ExactlyOne": {"C07"}, "TargetCarried": {"C07"}, "BoundedRetry": {"C07"}, "Released": {"C06"},
 }
+
+
+# the message a diverging (or panicking) task poll received tells which service the divergence is about
+RCV_PROPERTY = {"dgram": {"C11"}, "bind": {"C15"}, "connect": {"C07"}, "push": {"C02", "C03"}, "ack": {"C03", "C04"},
+                "finish": {"C05"}, "reset": {"C05", "C06"}, "junk": {"C10"}}
 
 
 def attribute(f):
@@ -130,6 +135,8 @@ def attribute(f):
     if ev in ("panic", "hang"):
         cmd = u.get("cmd", {}).get("op", "")
         props |= {"C10"} if cmd in ("task",) else set()
+        rop = (u.get("rcv") or {}).get("op")
+        props |= RCV_PROPERTY.get(rop, set())
         return props  # empty => every check that sees it reports it
     if ev == "write":
         if res == "pending":
@@ -172,6 +179,8 @@ def attribute(f):
             props |= {"C08"}
     elif ev in ("bridge_start", "bridge_poll", "bridge_drop"):
         props |= {"C13"}
+    elif ev == "cancel":
+        props |= {"C07", "C15"}
     elif ev == "drop_mux":
         props |= {"C08"}
     elif ev == "quiesce":
@@ -217,8 +226,7 @@ def attribute(f):
                       "close": {"C08"}, "ping": {"C16"}, "pong": {"C16"}}.get(op, set())
         # the message this poll received tells which service the divergence is about
         rop = (u.get("rcv") or {}).get("op")
-        props |= {"dgram": {"C11"}, "bind": {"C15"}, "connect": {"C07"}, "push": {"C02", "C03"}, "ack": {"C03", "C04"},
-                  "finish": {"C05"}, "reset": {"C05", "C06"}, "junk": {"C10"}}.get(rop, set())
+        props |= RCV_PROPERTY.get(rop, set())
         if res != "pending" or (exp_res and exp_res != {"pending"}):
             if res not in exp_res:
                 props |= {"C08", "C10"}
